@@ -93,6 +93,37 @@ def all_attr_stores(repo, attr):
     return out
 
 
+def holds_at(stmt):
+    """conditions (unparsed, negation normal form) known to hold when control reaches stmt, read off the structure: tests of the
+    enclosing `if` arms (negated on the else side), and the negated tests of earlier `if c: <terminator>` guards of the enclosing
+    blocks. Independent of whether a guard is written as nesting or as an early exit."""
+    from ..canon import NNF, _negate, TERMINATORS
+    import copy
+    out = []
+
+    def add(t, neg):
+        t = copy.deepcopy(t)
+        t = NNF().visit(_negate(t)) if neg else t
+        for c in (t.values if isinstance(t, ast.BoolOp) and isinstance(t.op, ast.And) else [t]):
+            out.append(ast.unparse(c))
+    n = stmt
+    while n is not None and not isinstance(n, (ast.FunctionDef, ast.AsyncFunctionDef, ast.Module)):
+        par = getattr(n, '_parent', None)
+        if par is None:
+            break
+        for fld in ('body', 'orelse', 'finalbody'):
+            blk = getattr(par, fld, None)
+            if isinstance(blk, list) and any(x is n for x in blk):
+                i = next(k for k, x in enumerate(blk) if x is n)
+                for prev in blk[:i]:
+                    if isinstance(prev, ast.If) and not prev.orelse and prev.body and isinstance(prev.body[-1], TERMINATORS):
+                        add(prev.test, True)
+                if isinstance(par, ast.If):
+                    add(par.test, fld == 'orelse')
+        n = par
+    return out
+
+
 def is_none(e):
     return isinstance(e, ast.Constant) and e.value is None
 
